@@ -75,27 +75,38 @@ func main() {
 		if f.AncestorField() != "" && kind != "perm" && r.Chance(0.4) {
 			extra = append(extra, f.AncestorField())
 		}
-		schema, feats := f.SchemaWith(r, []string{"fuses", "cast"}, extra, env)
+		must := []string{"fuses", "cast"}
+		if f.Name == "xml" && r.Chance(0.6) {
+			must = append(must, "xmlns")
+		}
+		schema, feats := f.SchemaWith(r, must, extra, env)
 		comp, err := pipe.Compile(schema)
 		if err != nil {
 			sum.Fail("generated schema rejected by NewSchema", map[string]string{"format": f.Name, "schema": schema}, err.Error())
 			continue
 		}
-		var ext map[string]string
-		if feats["external-const"] {
-			ext = map[string]string{"ext1": "E1"}
-		}
+		ext := pipe.GenExt(r.Pick)
+		fkinds := f.FailKindsFor()
 		run := func(recs []pipe.Rec) ([]byte, pipe.Transcript) {
 			in := f.Render(env, recs)
+			vh.Current(o, map[string]interface{}{"kind": kind, "format": f.Name, "schema": schema, "ext": ext, "input_hex": fmt.Sprintf("%x", in)})
 			pipe.Watch(f.Name + " " + kind)
 			t := comp.RunReal(in, ext)
 			pipe.Unwatch()
+			if bad := pipe.CheckOutputs(feats, ext, t); len(bad) > 0 {
+				sum.Fail("output relation violated: "+bad[0], map[string]interface{}{"format": f.Name, "schema": schema, "ext": ext, "input_hex": fmt.Sprintf("%x", in)},
+					map[string]interface{}{"violations": bad, "transcript": t})
+			}
 			return in, t
 		}
 		gen := func(n int, pOK float64) []pipe.Rec {
 			recs := make([]pipe.Rec, n)
 			for i := range recs {
 				recs[i] = pipe.GenRec(r, f, r.Chance(pOK))
+				// reader-level continuable failures among the records (old csv)
+				if len(fkinds) > len(pipe.FailKinds) && r.Chance(0.12) {
+					recs[i] = pipe.MakeFailing(recs[i], pipe.ReaderFailKinds[r.Pick(len(pipe.ReaderFailKinds))])
+				}
 			}
 			return recs
 		}
@@ -143,7 +154,7 @@ func main() {
 		case "perm":
 			recs := gen(r.Between(3, 6), 0.65)
 			if r.Chance(0.7) {
-				recs[r.Pick(len(recs))] = pipe.MakeFailing(recs[r.Pick(len(recs))], pipe.FailKinds[r.Pick(3)])
+				recs[r.Pick(len(recs))] = pipe.MakeFailing(recs[r.Pick(len(recs))], fkinds[r.Pick(len(fkinds))])
 			}
 			pi := r.Perm(len(recs))
 			prm := make([]pipe.Rec, len(recs))
@@ -179,12 +190,18 @@ func main() {
 		case "repl":
 			recs := gen(r.Between(3, 6), 0.85)
 			i := r.Pick(len(recs))
+			switch r.Pick(4) { // every position, first and last in particular
+			case 0:
+				i = 0
+			case 1:
+				i = len(recs) - 1
+			}
 			// the record to be replaced is one that succeeds
 			recs[i] = pipe.GenRec(r, f, true)
 			if recs[i].A == "FAIL" {
 				recs[i].A = "ok"
 			}
-			fk := pipe.FailKinds[r.Pick(3)]
+			fk := fkinds[r.Pick(len(fkinds))]
 			rep := append([]pipe.Rec(nil), recs...)
 			rep[i] = pipe.MakeFailing(rep[i], fk)
 			sum.Hist("failure-kind:" + fk)
